@@ -2,21 +2,21 @@
 struct vp_amu_state vp_amu;
 void (*vp_amu_wait_env) (nsync_mu *mu, const void *arg);
 void vp_amu_reset (void) {
-	int i;
-	for (i = 0; i != VP_AMU_MAX; i++) { vp_amu.addr[i] = NULL; vp_amu.held[i] = 0; }
+	vp_amu.addr[0] = NULL; vp_amu.addr[1] = NULL; vp_amu.addr[2] = NULL; vp_amu.addr[3] = NULL;
+	vp_amu.held[0] = 0; vp_amu.held[1] = 0; vp_amu.held[2] = 0; vp_amu.held[3] = 0;
 	vp_amu.lock_calls = 0; vp_amu.unlock_calls = 0; vp_amu.cv_waits = 0; vp_amu.cv_broadcasts = 0;
 	vp_amu_wait_env = NULL;
 }
+#define VP_REG_SLOT(i) if (vp_amu.addr[i] == NULL) { vp_amu.addr[i] = mu; vp_amu.held[i] = held; return; }
 void vp_amu_register (const void *mu, int held) {
-	int i;
-	for (i = 0; i != VP_AMU_MAX; i++) {
-		if (vp_amu.addr[i] == NULL) { vp_amu.addr[i] = mu; vp_amu.held[i] = held; return; }
-	}
+	VP_REG_SLOT (0) VP_REG_SLOT (1) VP_REG_SLOT (2) VP_REG_SLOT (3)
 	VP_ASSERT (0, "VP-AUX: abstract mutex table full");
 }
-static int idx (const void *mu) {
-	int i;
-	for (i = 0; i != VP_AMU_MAX; i++) { if (vp_amu.addr[i] == mu) return i; }
+static int idx (const void *mu) {   /* (no loop: VP_AMU_MAX == 4) */
+	if (vp_amu.addr[0] == mu) return 0;
+	if (vp_amu.addr[1] == mu) return 1;
+	if (vp_amu.addr[2] == mu) return 2;
+	if (vp_amu.addr[3] == mu) return 3;
 	VP_ASSERT (0, "VP-AUX: mutex not registered with the abstract mutex table");
 	return 0;
 }
